@@ -1887,6 +1887,20 @@ func (r *raft) restore(s *pb.Snapshot) bool {
 		return false
 	}
 
+	if r.raftLog.applying > r.raftLog.applied {
+		// Committed entries have been handed to the application and their
+		// application has not been acknowledged yet. If they contain
+		// configuration changes, the application will still call
+		// ApplyConfChange for them. Restoring the snapshot now would install a
+		// configuration that already includes those changes, and they would
+		// then be applied a second time on top of it, leaving this node with a
+		// configuration that no other node has. Ignore the snapshot; the leader
+		// will send one again.
+		r.logger.Infof("%x [commit: %d, applying: %d, applied: %d] ignored snapshot [index: %d, term: %d] while entries are being applied",
+			r.id, r.raftLog.committed, r.raftLog.applying, r.raftLog.applied, s.GetMetadata().GetIndex(), s.GetMetadata().GetTerm())
+		return false
+	}
+
 	// More defense-in-depth: throw away snapshot if recipient is not in the
 	// config. This shouldn't ever happen (at the time of writing) but lots of
 	// code here and there assumes that r.id is in the progress tracker.
